@@ -16,7 +16,7 @@ from .utils import (
     str_to_bytes,
 )
 
-from .coo_utils import CooArray, COO_QUICKSORT_LIMIT
+from .coo_utils import CooArray, COO_QUICKSORT_LIMIT, COO_MIN_SIZE
 
 import numpy as np
 import numba
@@ -471,6 +471,10 @@ class BaseCooccurrenceVectorizer(BaseEstimator, TransformerMixin):
             self._coo_sizes = np.array(coo_sizes * average_window, dtype=np.int64)
 
         self._coo_sizes = np.divmod(self._coo_sizes, self.n_threads)[0]
+        # coo_append only grows a nearly full buffer when it is at least 95% full
+        # *after* compaction, which integer rounding makes unreachable for tiny
+        # buffers (and a zero-length buffer cannot be appended to at all).
+        self._coo_sizes = np.maximum(self._coo_sizes, COO_MIN_SIZE)
 
     def _generate_chunk_boundaries(self, data, n_threads):
         token_list_sizes = np.array([len(x) for x in data])
